@@ -120,7 +120,7 @@ fn small_nat() -> BoxedStrategy<Nat> {
     .boxed()
 }
 
-fn op_strategy() -> impl Strategy<Value = Op> {
+fn op_strategy(nat: fn() -> BoxedStrategy<Nat>) -> impl Strategy<Value = Op> {
     // kinds weighted towards the buffer-reusing ones
     let kind = prop_oneof![
         3 => Just(0u8),
@@ -142,9 +142,11 @@ fn op_strategy() -> impl Strategy<Value = Op> {
         4 => Just(21u8),
         2 => Just(22u8),
         2 => Just(23u8),
-        1 => Just(24u8),
+        3 => Just(24u8),
+        4 => Just(25u8),
+        1 => Just(26u8),
     ];
-    (kind, any::<u8>(), any::<u8>(), any::<u8>(), any::<u8>(), prop_oneof![3 => 0u32..200, 2 => 0u32..9000, 1 => any::<u32>()], any::<bool>(), small_nat())
+    (kind, any::<u8>(), any::<u8>(), any::<u8>(), any::<u8>(), prop_oneof![3 => 0u32..200, 2 => 0u32..9000, 1 => any::<u32>()], any::<bool>(), nat())
         .prop_map(|(k, a, b, d, form, n, neg, v)| {
             // ops that do not read `v` carry an empty one (keeps cases small and shrinking fast)
             let v = if matches!(k, 0 | 1 | 2 | 4 | 22) { v } else { Nat(vec![]) };
@@ -153,7 +155,22 @@ fn op_strategy() -> impl Strategy<Value = Op> {
 }
 
 fn history(max_steps: usize) -> impl Strategy<Value = History> {
-    (proptest::collection::vec(op_strategy(), 0..max_steps), proptest::collection::vec((any::<bool>(), small_nat()), 4)).prop_map(|(ops, init)| History { init, ops })
+    (proptest::collection::vec(op_strategy(small_nat), 0..max_steps), proptest::collection::vec((any::<bool>(), small_nat()), 4)).prop_map(|(ops, init)| History { init, ops })
+}
+
+/// operands for the histories run under Miri (about 0.3 s per step there): the 2 <-> 3 word
+/// boundary, a few words above it, the same structured patterns
+fn miri_nat() -> BoxedStrategy<Nat> {
+    prop_oneof![
+        4 => gen::nat(Prof::Tiny),
+        6 => gen::nat_len(3, 5),
+        1 => gen::nat_len(6, 9),
+    ]
+    .boxed()
+}
+
+fn miri_history(max_steps: usize) -> impl Strategy<Value = History> {
+    (proptest::collection::vec(op_strategy(miri_nat), 1..max_steps), proptest::collection::vec((any::<bool>(), miri_nat()), 4)).prop_map(|(ops, init)| History { init, ops })
 }
 
 fn judge(h: &History, _ctx: &Ctx) -> Out {
@@ -220,45 +237,80 @@ fn run_cmd(cmd: &mut std::process::Command) -> (i32, String) {
     }
 }
 
-fn miri_tier(ck: &mut Check, n: usize) {
-    // histories generated by the same strategy, written to a file, run by `cargo +nightly miri run`
-    let hs = sample_strategy(&history(20), seed_mix(ck.seed, 0x171717), n);
-    // DV_MIRI / DV_MIRI_TARGET / DV_SCRATCH: a scratch copy of the tree under test (tools/mutcheck.sh)
-    let scratch = std::env::var("DV_SCRATCH").unwrap_or_else(|_| "/verif/target".into());
-    let dir = &format!("{scratch}/c17-miri");
-    let _ = std::fs::create_dir_all(dir);
-    let path = format!("{dir}/histories.json");
-    std::fs::write(&path, serde_json::to_string(&hs).unwrap()).unwrap();
+fn miri_cmd(path: &str) -> std::process::Command {
     let mut cmd = std::process::Command::new("cargo");
     cmd.current_dir(std::env::var("DV_MIRI").unwrap_or_else(|_| "/verif/miri".into()))
         .args(["+nightly", "miri", "run", "--quiet", "--"])
-        .arg(&path)
+        .arg(path)
         .env("CARGO_NET_OFFLINE", "true")
         .env("RUSTFLAGS", "--cfg dashu_verif")
         .env("MIRIFLAGS", "-Zmiri-disable-isolation")
         .env("CARGO_TARGET_DIR", std::env::var("DV_MIRI_TARGET").unwrap_or_else(|_| "/verif/target/miri".into()));
-    let (code, outp) = run_cmd(&mut cmd);
-    let ran = outp.lines().filter(|l| l.starts_with("MIRI-OK")).count() as u64;
-    let mut labels = std::collections::BTreeMap::new();
-    labels.insert("miri: histories run", ran);
-    let viol = if code != 0 {
-        // which history? the runner prints MIRI-START i before each
-        let last = outp.lines().filter(|l| l.starts_with("MIRI-START")).last().and_then(|l| l.split_whitespace().nth(1)).and_then(|s| s.parse::<usize>().ok());
-        match last {
-            Some(i) if outp.contains("Undefined Behavior") || outp.contains("error:") => {
-                let tail: String = outp.lines().filter(|l| l.contains("Undefined Behavior") || l.contains("error")).take(3).collect::<Vec<_>>().join(" | ");
-                Some((format!("Miri reported an error in history {i}: {}", truncate(&tail, 400)), serde_json::to_value(&hs[i]).unwrap()))
-            }
-            _ => {
-                println!("INCONCLUSIVE: Miri run ended with status {code} without a diagnosable history: {}", truncate(&outp, 600));
-                None
+    cmd
+}
+
+/// `n` histories generated by the small-operand strategy, split over `procs` Miri processes that
+/// run side by side (`cargo +nightly miri run`, the same interpreter dv::vm::run)
+fn miri_tier(ck: &mut Check, n: usize, procs: usize) {
+    // DV_MIRI / DV_MIRI_TARGET / DV_SCRATCH: a scratch copy of the tree under test (tools/mutcheck.sh)
+    let scratch = std::env::var("DV_SCRATCH").unwrap_or_else(|_| "/verif/target".into());
+    let dir = format!("{scratch}/c17-miri");
+    let _ = std::fs::remove_dir_all(&dir);
+    let _ = std::fs::create_dir_all(&dir);
+    let hs = sample_strategy(&miri_history(14), seed_mix(ck.seed, 0x171717), n);
+    // build once (an empty file), then the parts in parallel
+    let empty = format!("{dir}/empty.json");
+    std::fs::write(&empty, "[]").unwrap();
+    let (code, outp) = run_cmd(&mut miri_cmd(&empty));
+    if code != 0 {
+        infra(&format!("the Miri runner does not build or start: {}", truncate(&outp, 800)));
+    }
+    let procs = procs.max(1).min(hs.len().max(1));
+    let mut parts: Vec<Vec<usize>> = vec![Vec::new(); procs];
+    for i in 0..hs.len() {
+        parts[i % procs].push(i);
+    }
+    let results: Vec<(Vec<usize>, i32, String)> = std::thread::scope(|sc| {
+        let handles: Vec<_> = parts
+            .iter()
+            .enumerate()
+            .map(|(p, idx)| {
+                let path = format!("{dir}/part{p}.json");
+                let part: Vec<&History> = idx.iter().map(|&i| &hs[i]).collect();
+                std::fs::write(&path, serde_json::to_string(&part).unwrap()).unwrap();
+                let idx = idx.clone();
+                sc.spawn(move || {
+                    let (code, outp) = run_cmd(&mut miri_cmd(&path));
+                    (idx, code, outp)
+                })
+            })
+            .collect();
+        handles.into_iter().map(|h| h.join().unwrap()).collect()
+    });
+    let mut ran = 0u64;
+    let mut steps = 0u64;
+    let mut viol = None;
+    for (idx, code, outp) in &results {
+        let ok = outp.lines().filter(|l| l.starts_with("MIRI-OK")).count();
+        ran += ok as u64;
+        steps += idx.iter().take(ok).map(|&i| hs[i].ops.len() as u64).sum::<u64>();
+        if *code != 0 && viol.is_none() {
+            // which history? the runner prints MIRI-START i before each
+            let last = outp.lines().filter(|l| l.starts_with("MIRI-START")).last().and_then(|l| l.split_whitespace().nth(1)).and_then(|s| s.parse::<usize>().ok());
+            match last {
+                Some(i) if i < idx.len() && (outp.contains("Undefined Behavior") || outp.contains("error:") || outp.contains("VM-VIOLATION")) => {
+                    let tail: String = outp.lines().filter(|l| l.contains("Undefined Behavior") || l.contains("error") || l.contains("VM-VIOLATION")).take(3).collect::<Vec<_>>().join(" | ");
+                    viol = Some((format!("Miri reported an error in a history: {}", truncate(&tail, 400)), serde_json::to_value(&hs[idx[i]]).unwrap()));
+                }
+                _ => println!("INCONCLUSIVE: a Miri run ended with status {code} without a diagnosable history: {}", truncate(outp, 600)),
             }
         }
-    } else {
-        None
-    };
+    }
+    let mut labels = std::collections::BTreeMap::new();
+    labels.insert("miri: histories run", ran);
+    labels.insert("miri: steps run", steps);
     let samples = hs.iter().take(1).map(|h| serde_json::to_value(h).unwrap()).collect();
-    ck.external("history@miri", ran, ran.min(hs.len() as u64), labels, samples, viol, Some(serde_json::json!({"engine": "cargo +nightly miri run (same interpreter dv::vm::run)", "histories": n})));
+    ck.external("history@miri", ran, ran.min(hs.len() as u64), labels, samples, viol, Some(serde_json::json!({"engine": "cargo +nightly miri run (same interpreter dv::vm::run), operands of 0..9 words", "histories": n, "processes": procs})));
 }
 
 fn fuzz_tier(ck: &mut Check, runs: u64) {
@@ -304,14 +356,14 @@ fn main() {
         "histories of up to 30 (thorough 60) operations over a pool of 4 live integers: construction (words, bytes, primitives, ones, parse), + - * / % & | ^ in by-reference / by-value / compound-assignment forms, self-assignment patterns x op= &x.clone(), shifts, bit edits, clone, clone_from between any two slots, mem::take, shrinking to k words and growing by whole words, byte/word/chunk/text round trips, read-only use of from_static_words values; sizes steered across the 2<->3 word boundary and reallocation thresholds. After every step every slot: value == num-bigint model and hook invariants (inline iff <= 2 words, heap => len >= 3, top word != 0, len <= capacity <= len + len/4 + 4, zero positive); guarding allocator: wrong-size free, double free, tail canary, leaked bytes per history. Non-trivial: history with an inline<->heap transition and a clone_from; distinct by case digest.",
     );
     let th = ck.thorough();
-    ck.sub("history", (30_000, 600_000), move || history(if th { 60 } else { 30 }), judge);
+    ck.sub("history", (150_000, 3_000_000), move || history(if th { 60 } else { 30 }), judge);
     if !th && !ck.is_replay() && std::env::var("DV_NO_MIRI").is_err() {
-        // a fixed handful of histories under Miri on every change (about a minute, mostly build)
-        miri_tier(&mut ck, 6);
+        // small-operand histories under Miri on every change, 16 interpreters side by side
+        miri_tier(&mut ck, 192, 16);
     }
     if th && !ck.is_replay() {
-        let n = ((300.0 * ck.scale) as usize).max(5);
-        miri_tier(&mut ck, n);
+        let n = ((4000.0 * ck.scale) as usize).max(16);
+        miri_tier(&mut ck, n, 16);
         let runs = (300_000.0 * ck.scale) as u64;
         fuzz_tier(&mut ck, runs.max(1000));
     }
